@@ -172,6 +172,37 @@ func curatedWorlds() []wWorld {
 			out = append(out, wWorld{Files: []wFile{fl}, Targets: []string{"many.proto"}})
 		}
 	}
+	// a proto3 file may extend the (proto2) option messages of descriptor.proto: the extension's
+	// syntax is that of the file declaring it, not of its extendee
+	{
+		desc := file("google/protobuf/descriptor.proto", "google.protobuf", "proto2")
+		mo := wMsg{Head: mh("MessageOptions"), Nested: []wMsg{}}
+		mo.Head.ExtRange = true
+		fo := wMsg{Head: mh("FieldOptions"), Nested: []wMsg{}}
+		fo.Head.ExtRange = true
+		desc.Msgs = []wMsg{mo, fo}
+		opt := file("acme/options.proto", "acme", "proto3")
+		opt.Deps = []string{"google/protobuf/descriptor.proto"}
+		x1 := f("audit", 50001, 1, 8, "")
+		x1.Extendee = ".google.protobuf.MessageOptions"
+		x2 := f("rule", 50002, 1, 11, ".acme.Rule")
+		x2.Extendee = ".google.protobuf.FieldOptions"
+		opt.Exts = []wField{x1, x2}
+		opt.Msgs = []wMsg{{Head: mh("Rule", f("expr", 1, 1, 9, "")), Nested: []wMsg{}}}
+		out = append(out, wWorld{Files: []wFile{desc, opt}, Targets: []string{"acme/options.proto"}, Bidi: true})
+	}
+	// a target whose name is the tail of a non-target's name, the non-target listed first
+	{
+		inner := file("shop/order.proto", "shop", "proto3")
+		inner.Msgs = []wMsg{{Head: mh("Order", f("id", 1, 1, 9, "")), Nested: []wMsg{}}}
+		inner.Enums = []wEnum{{Name: "Kind", Values: []wEnumVal{{"KIND_BOOK", 0}}}}
+		outer := file("order.proto", "front", "proto3")
+		outer.Deps = []string{"shop/order.proto"}
+		outer.Msgs = []wMsg{{Head: mh("Page", f("o", 1, 1, 11, ".shop.Order")), Nested: []wMsg{}}}
+		out = append(out, wWorld{Files: []wFile{inner, outer}, Targets: []string{"order.proto"}})
+		other := file("x/shop/order.proto", "xshop", "proto3")
+		out = append(out, wWorld{Files: []wFile{other, inner, outer}, Targets: []string{"shop/order.proto"}, Bidi: true})
+	}
 	return append(out, hubWorlds()...)
 }
 
